@@ -190,6 +190,22 @@ func main() {
 						break
 					}
 				}
+				// handles the source world issued before its last Reset whose IDs lie behind the dump but inside the loaded
+				// world's pool (Stats().Entities.Capacity) are dead in the source and must be dead in the loaded world
+				// (IDs the current epoch re-used are value-identical to newer handles and not compared; IDs behind the
+				// pool's capacity are known finding K1)
+				capLoaded := w2.Stats().Entities.Capacity
+				for i := 0; i < m.Epoch0 && i < len(d.H); i++ {
+					h := d.H[i]
+					if h.IsZero() || int(h.ID()) < len(dump.Entities) || int(h.ID()) >= capLoaded {
+						continue
+					}
+					res.Counters["pre-reset-handles-inside-loaded-pool"]++
+					if w2.Alive(h) {
+						msgs = append(msgs, fmt.Sprintf("handle %v, removed by the source world's Reset before the dump (dump has %d entries, loaded pool capacity %d), is reported alive by the loaded world", h, len(dump.Entities), capLoaded))
+						break
+					}
+				}
 				// the reserved zero and wildcard entities are not alive in a loaded world either
 				var wild ecs.Entity
 				_ = wild.UnmarshalBinary([]byte{0, 0, 0, 1, 0, 0, 0, 0})
